@@ -459,6 +459,7 @@ func cmdCheck(args []string) int {
 				ro := opt
 				ro.secs = opt.secs * 4
 				runObligationAgain(o, ro)
+				fmt.Printf("note: %s/%s undecided within %ds, tried again alone with %ds: %s\n", shortKey(o.Fn), o.Name, opt.secs, ro.secs, o.Result)
 				retried++
 			}
 		}
